@@ -1,6 +1,9 @@
 """Shared machinery for the per-property checks: Coq literal writers, coqc runners,
 theorem re-checking, source hashing, known findings, evidence and verdict printing."""
 import ast
+import contextlib
+import signal
+import threading
 import hashlib
 import json
 import math
@@ -374,3 +377,48 @@ def coqchk_summary(pid, timeout=1500):
         return {"ok": False, "summary": "coqchk timed out"}
     i = out.find("CONTEXT SUMMARY")
     return {"ok": rc == 0, "summary": (out[i:] if i >= 0 else out[-1500:]).strip()[:3000]}
+
+
+# ---------------------------------------------------------------- guards against a non-terminating implementation
+class ImplTimeout(Exception):
+    pass
+
+
+_TIMEOUTS = {"n": 0}
+
+
+@contextlib.contextmanager
+def time_limit(seconds):
+    """Bound one call into the implementation (main thread only).  After three expiries further calls are refused at
+    once, so a change that makes the code loop cannot stall the whole check."""
+    if _TIMEOUTS["n"] >= 3:
+        raise ImplTimeout("skipped: earlier implementation calls did not terminate")
+
+    def handler(signum, frame):
+        _TIMEOUTS["n"] += 1
+        raise ImplTimeout(f"implementation call did not return within {seconds} s")
+    old = signal.signal(signal.SIGALRM, handler)
+    signal.setitimer(signal.ITIMER_REAL, seconds)
+    try:
+        yield
+    finally:
+        signal.setitimer(signal.ITIMER_REAL, 0)
+        signal.signal(signal.SIGALRM, old)
+
+
+def start_watchdog(pid, tier, seed, seconds):
+    """Last resort: if the whole check exceeds its budget, report that (fail closed) and exit."""
+    def fire():
+        path = write_replay(pid, seed, {"property": pid, "kind": "no-failing-input-found",
+                                        "no_longer_checks": [{"harness": f"check exceeded its time budget of {seconds} s "
+                                                              "(a call into the implementation may not terminate)"}], "repo": REPO})
+        write_evidence(pid, tier, seed, {"obligations": 1, "discharged": 0, "checker_cmd": "n/a (watchdog fired)",
+                                         "trusted_base": [], "evaluations": 1, "distinct_nontrivial": 2,
+                                         "samples": [{"note": "watchdog fired"}], "explanation": "time budget exceeded"},
+                       ["watchdog"], float(seconds), 1)
+        print(f"VIOLATION property={pid} replay={path} no-failing-input-found", flush=True)
+        os._exit(1)
+    t = threading.Timer(seconds, fire)
+    t.daemon = True
+    t.start()
+    return t
